@@ -201,6 +201,7 @@ class PointInCurved:
 
     nfree = 0
     max_degree = 2
+    replay_timeout = 20
     spot_names = ["membership differs from the curved region truth"]
 
     def __init__(self, shape, flag=True):
